@@ -169,10 +169,27 @@ def table(pairs):
 def io_case(ctx, i, focus):
     """one file x one mode; returns nothing, emits a record"""
     r = ctx.rng
-    encname = r.choice(list(ENCODINGS)) if focus == "c17" or r.random() < 0.4 else "utf-8"
+    encname = r.choice(list(ENCODINGS)) if focus == "c17" or r.random() < 0.6 else "utf-8"
     codec, sample = ENCODINGS[encname]
     bom_kind = r.choice(["none", "none", "utf8", "utf16le", "utf16be"]) if focus == "c17" or r.random() < 0.3 else "none"
     text = ctx.text(sample)
+    # blanks written as U+3000 (ideographic space, a blank for the scanner; common as indentation in CJK sources):
+    # the formatter removes them, and in a stateful encoding each costs far more bytes than the blank that replaces
+    # it, so the file can shrink in bytes while its text does not get shorter
+    can_u3000 = True
+    try:
+        "\u3000".encode(codec)
+    except UnicodeEncodeError:
+        can_u3000 = False
+    if can_u3000 and r.random() < (0.3 if not sample.isascii() else 0.1):
+        k = r.choice(["indent", "gaps", "short"])
+        if k == "indent":
+            text = "\n".join(("\u3000" * r.randint(1, 3) + ln.lstrip(" ")) if ln.startswith(" ") or r.random() < 0.3 else ln for ln in text.split("\n"))
+        elif k == "gaps":
+            text = text.replace(" := ", ":=\u3000", 2).replace(", ", ",\u3000", 2)
+        else:
+            text = r.choice(["a:=\u3000b;", "begin\n\u3000Foo;\n\u3000Bar;\n\u3000a:=b;\n\u3000c:=d;\nend;\n", "x\u3000:=\u30001;\n"])
+        ctx.bump("text_with_U+3000_blanks")
     if bom_kind != "none" and r.random() < 0.15:
         # U+FEFF as the first character of the text itself (after the byte-order mark): it is content, not a second mark
         text = "\ufeff" + text
@@ -319,7 +336,46 @@ def io_case(ctx, i, focus):
         ctx.failures.append({"kind": "oracle", "what": "c17: BOM not preserved", "cfg": "enc=%s,bom=%s,mode=%s,path=%s,name=%s" % (encname, bom_kind, mode, pathform, fname.encode("unicode_escape").decode()), "input_hex": hx(content), "family": focus})
 
 
+SHRINK_TEXTS = [
+    # results shorter in bytes than the original, by different amounts per encoding; U+3000 is a blank for the scanner
+    "a:=\u3000b;",
+    "begin\n\u3000Foo;\n\u3000Bar;\n\u3000a:=b;\n\u3000c:=d;\nend;\n",
+    "x\u3000:=\u30001;\n",
+    "a   :=   1   ;   // \u65e5\u672c   \n\n\n\n",
+    "\u3000\u3000\u3000begin\u3000end\u3000.\u3000\u3000",
+]
+
+
+def shrink_probe(ctx, focus):
+    """files mode vs stdin->stdout on texts whose result is shorter in bytes than the original (no stale tail), in every
+    encoding that can write them: the byte length and the text length can move in opposite directions (stateful
+    ISO-2022-JP: a U+3000 costs eight bytes, the blank that replaces it one)"""
+    n = 0
+    for encname, (codec, _) in ENCODINGS.items():
+        for t in SHRINK_TEXTS:
+            try:
+                body = t.encode(codec)
+            except UnicodeEncodeError:
+                continue
+            d = os.path.join(ctx.tmp, "shrink%d" % n)
+            n += 1
+            os.makedirs(d)
+            p = os.path.join(d, "u.pas")
+            with open(p, "wb") as f:
+                f.write(body)
+            base = ["-C", "line_ending=lf"] + enc_args(encname)
+            rc_in, so_in, _ = ctx.run(base, cwd=d, stdin=body)
+            rc, _, _ = ctx.run(base + ["u.pas"], cwd=d)
+            got = open(p, "rb").read()
+            ctx.bump("shrink_probes")
+            if rc_in == 0 and rc == 0 and got != so_in:
+                ctx.failures.append({"kind": "oracle", "what": "c16: files mode leaves bytes different from what stdin->stdout prints",
+                                     "cfg": "enc=%s,bom=none,mode=files,path=file,name=u.pas" % encname, "input_hex": hx(body), "family": focus})
+            shutil.rmtree(d, ignore_errors=True)
+
+
 def run_io(ctx, focus):
+    shrink_probe(ctx, focus)
     for i in range(ctx.count):
         io_case(ctx, i, focus)
     ctx.finish("io")
